@@ -239,6 +239,53 @@ def r5_marker_writers(chk: Check):
                         chk.require(("e.code == 0", True) in gs and in_handler, chk.fkey(f, "marker only on exit 0"),
                                     f"the success marker is written under {gs}: only in the SystemExit handler with code == 0", chk.loc(f.module, c))
     chk.min_instances(n, 1, "writers of the success marker")
+    # ... and nothing ever removes it (only whole job directories are deleted, by `jobs clean` / `orphans`)
+    nrm = 0
+    for f in tree.nontest_funcs():
+        cands = [c for c in fn_calls(f.node) if tail(c) in ("unlink", "remove", "rmfile", "rename", "replace") and (c.args or isinstance(c.func, ast.Attribute))]
+        if not cands:
+            continue
+        g = rd = None
+        for c in cands:
+            nrm += 1
+            target = c.func.value if tail(c) in ("unlink", "rename", "replace") and isinstance(c.func, ast.Attribute) else (c.args[0] if c.args else None)
+            if target is None:
+                continue
+            if g is None:
+                g = CFG(f.node)
+                rd = ReachingDefs(g)
+            nodes = g.nodes_of(c)
+            texts = set()
+            for nn in nodes:
+                texts |= _may_values(target, nn, rd)
+            hit = [t for t in texts if "donepath" in t or "'.done'" in t or '".done"' in t]
+            chk.require(not hit, chk.fkey(f, "removes the success marker"),
+                        f"`{src(c)}` in `{f.qual}` can remove / replace the success marker ({hit}): a later launch of the job script (e.g. one that was waiting for the job lock) "
+                        "would run the body again although it already succeeded", chk.loc(f.module, c))
+    chk.count("file_removal_sites", nrm)
+
+
+def _may_values(e, at, rd, depth=4) -> set:
+    """Source texts an expression may denote (following unique/multiple reaching definitions, loop
+    targets over literal sequences)"""
+    out = {src(e)}
+    if depth <= 0:
+        return out
+    if isinstance(e, ast.Name):
+        for d in rd.defs_at(e.id, at):
+            if d.kind in ("assign", "walrus") and d.value is not None:
+                out |= _may_values(d.value, d.node, rd, depth - 1)
+            elif d.kind == "for" and d.value is not None:
+                it = d.value
+                if isinstance(it, (ast.Tuple, ast.List, ast.Set)):
+                    for el in it.elts:
+                        out |= _may_values(el, d.node, rd, depth - 1)
+                else:
+                    out |= {"ELEM(" + t + ")" for t in _may_values(it, d.node, rd, depth - 1)}
+    elif isinstance(e, (ast.Tuple, ast.List)):
+        for el in e.elts:
+            out |= _may_values(el, at, rd, depth - 1)
+    return out
 
 
 RULES = [
@@ -246,5 +293,5 @@ RULES = [
     ("R2", "success-marker short-circuit: every path to aio_start tests the marker (true edge stores DONE), re-tested after every await that precedes the start loop; loop guarded by not finished", r2_marker_shortcircuit),
     ("R3", "the scheduler spawns the process and writes the pid file inside the job lock", r3_lock_while_starting),
     ("R4", "task side: body after all lock files are acquired (blocking), only if the success marker - read under the lock - is absent; the generated script lists job.lockpath", r4_task_side),
-    ("R5", "the only writer of the success marker is TaskRunner.run's SystemExit handler under code == 0", r5_marker_writers),
+    ("R5", "the only writer of the success marker is TaskRunner.run's SystemExit handler under code == 0, and nothing in the package removes or replaces it", r5_marker_writers),
 ]
